@@ -59,7 +59,8 @@ func (c Const) Validate(v bytes.Bytes) {
 		return
 	}
 
-	if v.String() != c.nodeValue.String() {
+	// Compare the values, not the spellings: "a\/b" and "a/b" are the same string.
+	if v.Unquote().String() != c.nodeValue.Unquote().String() {
 		panic(errors.Format(errors.ErrInvalidConst, c.nodeValue.String()))
 	}
 }
